@@ -448,6 +448,65 @@ theorem callF_pf (fuse : Nat) (n : Nat) (f : FnId) (s : Store P) (na : List Nat)
       = liftR (callWith (exec prog n) prog f s na pa va) :=
   callF_plain pfSet prog unwind fuse pfSet_ok n f s na pa va hf
 
+/-! the instances (rewrite rules without side condition) -/
+theorem callF_pf_storeSwap (fuse n : Nat) (s : Store P) (na : List Nat) (pa : List P) (va : List (Val P)) :
+    toCRcall (callWithF (execF prog unwind fuse false n) (exec prog n) prog unwind .storeSwap s na pa va)
+      = liftR (callWith (exec prog n) prog .storeSwap s na pa va) := callF_pf fuse n _ s na pa va rfl
+theorem callF_pf_storePrioAt (fuse n : Nat) (s : Store P) (na : List Nat) (pa : List P) (va : List (Val P)) :
+    toCRcall (callWithF (execF prog unwind fuse false n) (exec prog n) prog unwind .storePrioAt s na pa va)
+      = liftR (callWith (exec prog n) prog .storePrioAt s na pa va) := callF_pf fuse n _ s na pa va rfl
+theorem callF_pf_storeSwapRemove (fuse n : Nat) (s : Store P) (na : List Nat) (pa : List P) (va : List (Val P)) :
+    toCRcall (callWithF (execF prog unwind fuse false n) (exec prog n) prog unwind .storeSwapRemove s na pa va)
+      = liftR (callWith (exec prog n) prog .storeSwapRemove s na pa va) := callF_pf fuse n _ s na pa va rfl
+theorem callF_pf_storeRemove (fuse n : Nat) (s : Store P) (na : List Nat) (pa : List P) (va : List (Val P)) :
+    toCRcall (callWithF (execF prog unwind fuse false n) (exec prog n) prog unwind .storeRemove s na pa va)
+      = liftR (callWith (exec prog n) prog .storeRemove s na pa va) := callF_pf fuse n _ s na pa va rfl
+theorem callF_pf_storeClear (fuse n : Nat) (s : Store P) (na : List Nat) (pa : List P) (va : List (Val P)) :
+    toCRcall (callWithF (execF prog unwind fuse false n) (exec prog n) prog unwind .storeClear s na pa va)
+      = liftR (callWith (exec prog n) prog .storeClear s na pa va) := callF_pf fuse n _ s na pa va rfl
+theorem callF_pf_storeDrain (fuse n : Nat) (s : Store P) (na : List Nat) (pa : List P) (va : List (Val P)) :
+    toCRcall (callWithF (execF prog unwind fuse false n) (exec prog n) prog unwind .storeDrain s na pa va)
+      = liftR (callWith (exec prog n) prog .storeDrain s na pa va) := callF_pf fuse n _ s na pa va rfl
+theorem callF_pf_storeRetainMut (fuse n : Nat) (s : Store P) (na : List Nat) (pa : List P) (va : List (Val P)) :
+    toCRcall (callWithF (execF prog unwind fuse false n) (exec prog n) prog unwind .storeRetainMut s na pa va)
+      = liftR (callWith (exec prog n) prog .storeRetainMut s na pa va) := callF_pf fuse n _ s na pa va rfl
+theorem callF_pf_storeAppend (fuse n : Nat) (s : Store P) (na : List Nat) (pa : List P) (va : List (Val P)) :
+    toCRcall (callWithF (execF prog unwind fuse false n) (exec prog n) prog unwind .storeAppend s na pa va)
+      = liftR (callWith (exec prog n) prog .storeAppend s na pa va) := callF_pf fuse n _ s na pa va rfl
+theorem callF_pf_storeSwapRemoveIf (fuse n : Nat) (s : Store P) (na : List Nat) (pa : List P) (va : List (Val P)) :
+    toCRcall (callWithF (execF prog unwind fuse false n) (exec prog n) prog unwind .storeSwapRemoveIf s na pa va)
+      = liftR (callWith (exec prog n) prog .storeSwapRemoveIf s na pa va) := callF_pf fuse n _ s na pa va rfl
+theorem callF_pf_storeChangePriority (fuse n : Nat) (s : Store P) (na : List Nat) (pa : List P) (va : List (Val P)) :
+    toCRcall (callWithF (execF prog unwind fuse false n) (exec prog n) prog unwind .storeChangePriority s na pa va)
+      = liftR (callWith (exec prog n) prog .storeChangePriority s na pa va) := callF_pf fuse n _ s na pa va rfl
+theorem callF_pf_storeChangePriorityBy (fuse n : Nat) (s : Store P) (na : List Nat) (pa : List P) (va : List (Val P)) :
+    toCRcall (callWithF (execF prog unwind fuse false n) (exec prog n) prog unwind .storeChangePriorityBy s na pa va)
+      = liftR (callWith (exec prog n) prog .storeChangePriorityBy s na pa va) := callF_pf fuse n _ s na pa va rfl
+theorem callF_pf_storeFromVec (fuse n : Nat) (s : Store P) (na : List Nat) (pa : List P) (va : List (Val P)) :
+    toCRcall (callWithF (execF prog unwind fuse false n) (exec prog n) prog unwind .storeFromVec s na pa va)
+      = liftR (callWith (exec prog n) prog .storeFromVec s na pa va) := callF_pf fuse n _ s na pa va rfl
+theorem callF_pf_storeFromIter (fuse n : Nat) (s : Store P) (na : List Nat) (pa : List P) (va : List (Val P)) :
+    toCRcall (callWithF (execF prog unwind fuse false n) (exec prog n) prog unwind .storeFromIter s na pa va)
+      = liftR (callWith (exec prog n) prog .storeFromIter s na pa va) := callF_pf fuse n _ s na pa va rfl
+theorem callF_pf_storeExtend (fuse n : Nat) (s : Store P) (na : List Nat) (pa : List P) (va : List (Val P)) :
+    toCRcall (callWithF (execF prog unwind fuse false n) (exec prog n) prog unwind .storeExtend s na pa va)
+      = liftR (callWith (exec prog n) prog .storeExtend s na pa va) := callF_pf fuse n _ s na pa va rfl
+theorem callF_pf_storeVisitSeq (fuse n : Nat) (s : Store P) (na : List Nat) (pa : List P) (va : List (Val P)) :
+    toCRcall (callWithF (execF prog unwind fuse false n) (exec prog n) prog unwind .storeVisitSeq s na pa va)
+      = liftR (callWith (exec prog n) prog .storeVisitSeq s na pa va) := callF_pf fuse n _ s na pa va rfl
+theorem callF_pf_storeRetain (fuse n : Nat) (s : Store P) (na : List Nat) (pa : List P) (va : List (Val P)) :
+    toCRcall (callWithF (execF prog unwind fuse false n) (exec prog n) prog unwind .storeRetain s na pa va)
+      = liftR (callWith (exec prog n) prog .storeRetain s na pa va) := callF_pf fuse n _ s na pa va rfl
+theorem callF_pf_dqFindMin (fuse n : Nat) (s : Store P) (na : List Nat) (pa : List P) (va : List (Val P)) :
+    toCRcall (callWithF (execF prog unwind fuse false n) (exec prog n) prog unwind .dqFindMin s na pa va)
+      = liftR (callWith (exec prog n) prog .dqFindMin s na pa va) := callF_pf fuse n _ s na pa va rfl
+theorem callF_pf_pqPeek (fuse n : Nat) (s : Store P) (na : List Nat) (pa : List P) (va : List (Val P)) :
+    toCRcall (callWithF (execF prog unwind fuse false n) (exec prog n) prog unwind .pqPeek s na pa va)
+      = liftR (callWith (exec prog n) prog .pqPeek s na pa va) := callF_pf fuse n _ s na pa va rfl
+theorem callF_pf_pqPeekMut (fuse n : Nat) (s : Store P) (na : List Nat) (pa : List P) (va : List (Val P)) :
+    toCRcall (callWithF (execF prog unwind fuse false n) (exec prog n) prog unwind .pqPeekMut s na pa va)
+      = liftR (callWith (exec prog n) prog .pqPeekMut s na pa va) := callF_pf fuse n _ s na pa va rfl
+
 /-- leaf statements and comparison-free blocks inside a function that does compare -/
 theorem execStepF_leaf (n : Nat) (fuse : Nat) (recF : Stmt → St P → CF P (St P × Flow P)) (byRef : FnId → Bool)
     (c : Stmt) (st : St P) (h : NoPanic pfSet c = true) :
@@ -617,6 +676,8 @@ theorem frame0_of_toCR (x : CF P (St P × Flow P)) (y : CR P (Store P))
 theorem exec_step (prog : Prog) (n : Nat) (c : Stmt) (st : St P) :
     exec prog (n + 1) c st = execStep (exec prog n) (callWith (exec prog n) prog) c st := rfl
 
+theorem toCR_error_fault {β : Type} (fill : St P → R (Store P)) (proj : St P → β) (f : Fault) :
+    toCR fill proj (Except.error (StopF.fault f)) = .error (.fault f) := rfl
 theorem frame0_error_fault (f : Fault) : frame0 (Except.error (StopF.fault f) : CF P (St P × Flow P)) = .error (.fault f) := rfl
 
 /-- symbolic evaluation of the fused interpreter on a function body: the compound statements by their equations,
@@ -644,11 +705,11 @@ syntax "srcF_cr" (" [" Lean.Parser.Tactic.simpLemma,* "]")? : tactic
 macro_rules
   | `(tactic| srcF_cr) => `(tactic| srcF_cr [])
   | `(tactic| srcF_cr [$ls,*]) => `(tactic|
-      simp (disch := decide) only [PQ.SrcEquivF.frame0_liftF_bind, PQ.SrcEquivF.frame0_cmpAt_bind, PQ.SrcEquivF.frame0_ite,
+      simp only [PQ.SrcEquivF.callF_pf_storeSwap, PQ.SrcEquivF.callF_pf_storePrioAt, PQ.SrcEquivF.callF_pf_storeSwapRemove, PQ.SrcEquivF.callF_pf_storeRemove, PQ.SrcEquivF.callF_pf_storeClear, PQ.SrcEquivF.callF_pf_storeDrain, PQ.SrcEquivF.callF_pf_storeRetainMut, PQ.SrcEquivF.callF_pf_storeAppend, PQ.SrcEquivF.callF_pf_storeSwapRemoveIf, PQ.SrcEquivF.callF_pf_storeChangePriority, PQ.SrcEquivF.callF_pf_storeChangePriorityBy, PQ.SrcEquivF.callF_pf_storeFromVec, PQ.SrcEquivF.callF_pf_storeFromIter, PQ.SrcEquivF.callF_pf_storeExtend, PQ.SrcEquivF.callF_pf_storeVisitSeq, PQ.SrcEquivF.callF_pf_storeRetain, PQ.SrcEquivF.callF_pf_dqFindMin, PQ.SrcEquivF.callF_pf_pqPeek, PQ.SrcEquivF.callF_pf_pqPeekMut, PQ.SrcEquivF.frame0_liftF_bind, PQ.SrcEquivF.frame0_cmpAt_bind, PQ.SrcEquivF.frame0_ite,
         PQ.SrcEquivF.frame0_fromCall_bind, PQ.SrcEquivF.frame0_pure_normal, PQ.SrcEquivF.frame0_pure_ret,
         PQ.SrcEquivF.frame0_error_fault,
         PQ.SrcEquivF.toCR_fill0_fromCall_bind, PQ.SrcEquivF.toCR_liftF_bind, PQ.SrcEquivF.toCR_fill0_cmpAt_bind,
-        PQ.SrcEquivF.toCR_ite, PQ.SrcEquivF.toCR_pure, PQ.SrcEquivF.callF_pf,
+        PQ.SrcEquivF.toCR_ite, PQ.SrcEquivF.toCR_pure, PQ.SrcEquivF.toCR_error_fault,
         PQ.SrcEquivF.cmpF_bind, PQ.Crash.liftR_bind, PQ.Crash.liftR_pure, PQ.Crash.liftR_ok, PQ.Crash.liftR_error,
         PQ.SrcEquivF.liftR_ite, map_eq_pure_bind, bind_assoc, pure_bind,
         PQ.SrcEquivF.iteC_bind, PQ.SrcEquivF.errorC_bind, PQ.SrcEquivF.okC_bind, Src.upd, ↓reduceIte, Nat.reduceEqDiff,
